@@ -125,7 +125,7 @@ def worker(args) -> Dict[str, Any]:
         profile = mmgen.Profile(
             sdk_safe=True, n_enums=(1, 4), n_const_sets=(2, 7), n_const_prims=(1, 5),
             n_classes=(1, 3), max_props=2, p_invariant=0.3, hostile_strings=(i % 2 == 0),
-            n_cprims=(0, 1),
+            n_cprims=(0, 1), incomplete_supersets=(i % 3 == 0),
         )
         m = mmgen.generate(chk.rng("model", i), profile)
         models.append((f"mmg/{chk.seed}/{i}", m.text))
